@@ -20,7 +20,16 @@ type kqState struct{}
 
 func (x *Exec) nInst() int { return len(x.sim.Inst) }
 
-func (x *Exec) lastInst() *sinot.Instance { return x.sim.Inst[len(x.sim.Inst)-1] }
+// lastInst: the newest instance made by the current task (Watchers may be created concurrently).
+func (x *Exec) lastInst() *sinot.Instance {
+	me := ssim.Cur().ID
+	for i := len(x.sim.Inst) - 1; i >= 0; i-- {
+		if x.sim.Inst[i].Creator == me {
+			return x.sim.Inst[i]
+		}
+	}
+	return x.sim.Inst[len(x.sim.Inst)-1]
+}
 
 func (x *Exec) stopFaults() { x.sim.Cfg.FaultAdd, x.sim.Cfg.FaultInit, x.sim.Cfg.FaultRead = 0, 0, 0 }
 
